@@ -155,7 +155,7 @@ class HCtx(FreshCtx):
 def build_call(spec, n, monitor=None, transplant=False):
     ctx = HCtx(spec['argseed'], n, seed_mode=spec.get('seed_mode', 'int'), monitor=monitor)
     ctx.transplant = transplant
-    call = api.ENTRIES[spec['entry']]['build'](ctx)
+    call = api.build(spec['entry'], ctx)
     if spec.get('own_dict') is False and call.defaults_dict is None:
         pass
     return call, ctx
